@@ -109,7 +109,9 @@ def randomDouble (r rmax : α) : α := r / rmax
 /-- `(random_double() - 0.5) * 2.0 * scale` -/
 def randomValue (u scale : α) : α := (u - half) * two * scale
 /-- the sanity check of `random_value(Stokes)`: `invariant < -1e-10 * I * I` throws (before the repair
-the tolerance was the absolute `-1e-10`) -/
+the tolerance was the absolute `-1e-10`).  The code now takes `max(1e-10, 64 eps_T)` for the element type `T` of the
+vector; this is the `T = double` instance, for which the maximum is `1e-10`; the single-precision instantiations are
+covered by an implementation oracle only (`o.c18.scaletypes`) -/
 def stokesThrows (inv i : Float) : Bool := decide (inv < -1e-10 * i * i)
 /-- the intermediate quantities of `random_value (Stokes<T>&, scale, max_polarization)` -/
 structure StokesDraw (α : Type) where
